@@ -89,7 +89,10 @@ class AsyncRequest {
    * no underlying data.
    **/
   OpResult getUpdate() {
-    if (state_.load(std::memory_order_acquire) == kReady) {
+    // Claim the ready value exclusively before moving it out, so that with multiple consumers only
+    // one of them can take it (kUpdating keeps producers and requesters out meanwhile).
+    RequestState state = kReady;
+    if (state_.compare_exchange_strong(state, kUpdating, std::memory_order_acq_rel)) {
       auto obj = std::move(obj_);
       state_.store(kNone, std::memory_order_release);
       return obj;
